@@ -4,6 +4,7 @@ import SimilarVerif.Model.Common
 import SimilarVerif.Lemmas.Capture
 import SimilarVerif.Lemmas.MyersTotal
 import SimilarVerif.Lemmas.Identical
+import SimilarVerif.Lemmas.F32
 /-!
 # C02 — captured ops form a valid edit script old → new; ratio in [0,1], 1 iff equal
 
@@ -81,6 +82,41 @@ theorem replace_capture_valid (e : Nat → Nat → Bool) (ops : List Op) (o n o'
 /-- non-vacuity -/
 example : Walk (fun i j => i + (if 2 < j then 1 else 0) == j) 0 0 [.equal 0 0 2, .replace 2 1 2 2, .equal 3 4 1] 4 5 := by
   simp [Walk]; intro t ht; omega
+
+/-! ### the `f32` value of `get_diff_ratio`
+
+`get_diff_ratio` returns `2.0 * matches as f32 / len as f32` (`1.0` for `len = 0`); in the model that is the
+soft-float bit pattern `F32.ratio matches len` (Model/F32.lean, compared bit for bit with the implementation
+and with native `Float32` on every request). -/
+
+/-- the `f32` ratio of a valid op list is never above `1.0` — for every size -/
+theorem ratio_f32_le_one (e : Nat → Nat → Bool) (ops : List Op) (o n o' n' : Nat) (hw : Walk e o n ops o' n') :
+    F32.ratio (nEq ops) ((o' - o) + (n' - n)) ≤ F32.one := by
+  have h := ratio_le_one e ops o n o' n' hw
+  rw [ratioPair_eq] at h
+  exact F32.ratio_le_one h
+
+/-- … and below 2^24 items overall it is exactly `1.0` iff nothing is deleted or inserted (C02's "1.0 exactly when
+the inputs are equal"; with `no_changes_iff_equal`). The size bound is needed: see `ratio_f32_one_needs_bound`. -/
+theorem ratio_f32_eq_one_iff (e : Nat → Nat → Bool) (ops : List Op) (o n o' n' : Nat) (hw : Walk e o n ops o' n')
+    (hsz : (o' - o) + (n' - n) < 2 ^ 24) :
+    F32.ratio (nEq ops) ((o' - o) + (n' - n)) = F32.one ↔ nDel ops = 0 ∧ nIns ops = 0 := by
+  have h := ratio_le_one e ops o n o' n' hw
+  have h2 := ratio_eq_one_iff e ops o n o' n' hw
+  rw [ratioPair_eq] at h h2
+  simp only at h h2
+  rw [F32.ratio_eq_one_iff hsz h, ← h2]
+  constructor
+  · rintro (h0 | h0) <;> omega
+  · intro h0; exact Or.inr h0
+
+/-- beyond 2^24 items the `f32` ratio of a diff WITH a change can round to `1.0`: 2^23 equal items and one
+inserted item (`len = 2^24 + 1` is not representable and rounds down) -/
+theorem ratio_f32_one_needs_bound : F32.ratio (2 ^ 23) (2 ^ 24 + 1) = F32.one := by decide +kernel
+
+#print axioms ratio_f32_le_one
+#print axioms ratio_f32_eq_one_iff
+#print axioms ratio_f32_one_needs_bound
 
 end SimilarVerif.C02
 
